@@ -21,7 +21,7 @@ Lemma fill_params_lib : forall ps slots, (length ps <= slots)%nat ->
   Ok (map (lib_float il) ps ++ repeat 0%float (slots - length ps)).
 Proof.
   induction ps as [|p ps IH]; intros slots H.
-  - simpl. now rewrite Nat.sub_0_r.
+  - cbn [map length app]. rewrite Nat.sub_0_r. destruct slots; reflexivity.
   - destruct slots as [|k]; [simpl in H; lia|].
     cbn [map fill_params]. rewrite to_float_lib. cbn [bind]. rewrite IH by (simpl in H; lia). reflexivity.
 Qed.
@@ -61,7 +61,7 @@ Proof. induction ts as [|t ts IH]; simpl; [reflexivity|]. now rewrite IH. Qed.
 Definition named_type (ty : Z) : Prop := ty = HIDDEN \/ ty = INPUT \/ ty = OUTPUT \/ ty = BIAS.
 
 Lemma neuron_type_roundtrip : forall ty, named_type ty -> neuron_type_by_name (neuron_type_name ty) = Ok ty.
-Proof. intros ty [->|[->|[->|->]]]; reflexivity. Qed.
+Proof. intros ty [ -> | [ -> | [ -> | -> ] ] ]; reflexivity. Qed.
 
 Definition ynode_ok (n : node) : Prop := named_type (n_type n) /\ exists s, reg_name reg (n_act n) = Some s.
 
@@ -406,5 +406,126 @@ Proof.
   intros g s rest Hn Hs Hrest. unfold enc_generation in Hs. rewrite Hn in Hs. cbn [bind] in Hs. injection Hs as <-.
   unfold dec_generation, dbind at 1 2 3 4 5 6 7 8 9 10 11 12, d_int, d_time, d_bool, d_floats. cbn [app].
   unfold dbind. destruct (dec_champion_no_float rest Hrest) as [c ->]. eauto.
+Qed.
+
+(* a decoder run ends in an error return or consumes exactly the values written for its item *)
+Definition err_or_exact {A} (r : res (A * list gval)) (rest : list gval) : Prop :=
+  (exists c, r = GoErr c) \/ (exists a, r = Ok (a, rest)).
+
+Lemma dec_generation_some : forall g c s rest, gn_champion g = Some c -> enc_generation reg g = Ok s ->
+  err_or_exact (dec_generation reg (s ++ rest)) rest.
+Proof.
+  intros g c s rest Hc Hs. unfold enc_generation in Hs. rewrite Hc in Hs. unfold enc_champion in Hs.
+  destruct (write_genome reg (c_genome c)) as [ls| | | | |]; try discriminate. cbn [bind] in Hs. injection Hs as <-.
+  unfold dec_generation, dec_champion, dbind, d_int, d_time, d_bool, d_floats, d_float, d_bytes. cbn [app].
+  pose proof (read_genome_total reg ls) as T. unfold read_genome_id.
+  destruct (read_genome reg ls) as [r| | | | |]; simpl in T; try contradiction; cbn [bind].
+  - right. unfold dret. eauto.
+  - left. eauto.
+Qed.
+
+Lemma enc_generation_head : forall g s, enc_generation reg g = Ok s -> exists tl, s = GInt (gn_id g) :: tl.
+Proof.
+  intros g s H. unfold enc_generation in H.
+  destruct (match gn_champion g with Some c => enc_champion reg c | None => Ok [] end); try discriminate.
+  cbn [bind] in H. injection H as <-. eauto.
+Qed.
+
+Lemma gens_stream_next : forall gs s rest, concat_res (map (enc_generation reg) gs) = Ok s ->
+  no_float_next rest -> no_float_next (s ++ rest).
+Proof.
+  intros gs s rest H Hr. destruct gs as [|g gs]; [injection H as <-; exact Hr|].
+  cbn [map concat_res] in H. destruct (enc_generation reg g) as [s1| | | | |] eqn:E; try discriminate. cbn [bind] in H.
+  destruct (concat_res (map (enc_generation reg) gs)); try discriminate. cbn [bind] in H. injection H as <-.
+  destruct (enc_generation_head g s1 E) as [tl ->]. exact I.
+Qed.
+
+Definition has_nil_gen (gs : list (generation (option champion))) : Prop :=
+  exists g, In g gs /\ gn_champion g = None.
+
+Lemma dec_gens_nil : forall gs s rest, has_nil_gen gs -> concat_res (map (enc_generation reg) gs) = Ok s ->
+  no_float_next rest -> exists c, dec_n (dec_generation reg) (length gs) (s ++ rest) = GoErr c.
+Proof.
+  induction gs as [|g gs IH]; intros s rest (g0 & Hin & Hnil) Hs Hrest; [contradiction|].
+  cbn [map concat_res] in Hs. destruct (enc_generation reg g) as [s1| | | | |] eqn:E1; try discriminate. cbn [bind] in Hs.
+  destruct (concat_res (map (enc_generation reg) gs)) as [s2| | | | |] eqn:E2; try discriminate. cbn [bind] in Hs.
+  injection Hs as <-. cbn [length dec_n]. unfold dbind at 1. rewrite <- app_assoc.
+  destruct (gn_champion g) as [c|] eqn:Ec.
+  - destruct (dec_generation_some g c s1 (s2 ++ rest) Ec E1) as [[code ->]|[g' ->]]; [eauto|].
+    destruct Hin as [->|Hin]; [congruence|].
+    destruct (IH s2 rest (ex_intro _ g0 (conj Hin Hnil)) eq_refl Hrest) as [code Hc].
+    unfold dbind at 1. rewrite Hc. eauto.
+  - destruct (dec_generation_nil_champion g s1 (s2 ++ rest) Ec E1 (gens_stream_next gs s2 rest E2 Hrest)) as [code ->]. eauto.
+Qed.
+
+Lemma dec_gens_any : forall gs s rest, concat_res (map (enc_generation reg) gs) = Ok s -> no_float_next rest ->
+  err_or_exact (dec_n (dec_generation reg) (length gs) (s ++ rest)) rest.
+Proof.
+  induction gs as [|g gs IH]; intros s rest Hs Hrest.
+  - injection Hs as <-. right. simpl. unfold dret. eauto.
+  - cbn [map concat_res] in Hs. destruct (enc_generation reg g) as [s1| | | | |] eqn:E1; try discriminate. cbn [bind] in Hs.
+    destruct (concat_res (map (enc_generation reg) gs)) as [s2| | | | |] eqn:E2; try discriminate. cbn [bind] in Hs.
+    injection Hs as <-. cbn [length dec_n]. unfold dbind at 1. rewrite <- app_assoc.
+    destruct (gn_champion g) as [c|] eqn:Ec.
+    + destruct (dec_generation_some g c s1 (s2 ++ rest) Ec E1) as [[code ->]|[g' ->]]; [left; eauto|].
+      unfold dbind at 1. destruct (IH s2 rest eq_refl Hrest) as [[code ->]|[l ->]]; [left; eauto|right]. unfold dret. eauto.
+    + destruct (dec_generation_nil_champion g s1 (s2 ++ rest) Ec E1 (gens_stream_next gs s2 rest E2 Hrest)) as [code ->].
+      left. eauto.
+Qed.
+
+Lemma enc_trial_head : forall t s, enc_trial reg t = Ok s -> exists tl, s = GInt (tr_id t) :: tl.
+Proof.
+  intros t s H. unfold enc_trial in H. destruct (concat_res (map (enc_generation reg) (tr_gens t))); try discriminate.
+  cbn [bind] in H. injection H as <-. eauto.
+Qed.
+
+Lemma trials_stream_next : forall ts s, concat_res (map (enc_trial reg) ts) = Ok s -> no_float_next (s ++ []).
+Proof.
+  intros ts s H. rewrite app_nil_r. destruct ts as [|t ts]; [injection H as <-; exact I|].
+  cbn [map concat_res] in H. destruct (enc_trial reg t) as [s1| | | | |] eqn:E; try discriminate. cbn [bind] in H.
+  destruct (concat_res (map (enc_trial reg) ts)); try discriminate. cbn [bind] in H. injection H as <-.
+  destruct (enc_trial_head t s1 E) as [tl ->]. exact I.
+Qed.
+
+Lemma dec_trial_any : forall t s rest, enc_trial reg t = Ok s -> no_float_next rest ->
+  err_or_exact (dec_trial reg (s ++ rest)) rest /\
+  (has_nil_gen (tr_gens t) -> exists c, dec_trial reg (s ++ rest) = GoErr c).
+Proof.
+  intros t s rest Hs Hrest. unfold enc_trial in Hs.
+  destruct (concat_res (map (enc_generation reg) (tr_gens t))) as [gs| | | | |] eqn:E; try discriminate.
+  cbn [bind] in Hs. injection Hs as <-. unfold dec_trial, dbind, d_int. cbn [app]. rewrite !dec_count_len. split.
+  - destruct (dec_gens_any (tr_gens t) gs rest E Hrest) as [[c ->]|[l ->]]; [left; eauto|right].
+    unfold dret. eauto.
+  - intros Hnil. destruct (dec_gens_nil (tr_gens t) gs rest Hnil E Hrest) as [c ->]. eauto.
+Qed.
+
+Lemma dec_trials_nil : forall ts s,
+  (exists t, In t ts /\ has_nil_gen (tr_gens t)) -> concat_res (map (enc_trial reg) ts) = Ok s ->
+  exists c, dec_n (dec_trial reg) (length ts) s = GoErr c.
+Proof.
+  induction ts as [|t ts IH]; intros s (t0 & Hin & Hnil) Hs; [contradiction|].
+  cbn [map concat_res] in Hs. destruct (enc_trial reg t) as [s1| | | | |] eqn:E1; try discriminate. cbn [bind] in Hs.
+  destruct (concat_res (map (enc_trial reg) ts)) as [s2| | | | |] eqn:E2; try discriminate. cbn [bind] in Hs.
+  injection Hs as <-. cbn [length dec_n]. unfold dbind at 1.
+  pose proof (trials_stream_next ts s2 E2) as Hn. rewrite app_nil_r in Hn.
+  destruct (dec_trial_any t s1 s2 E1 Hn) as [Hany Hbad].
+  destruct Hin as [->|Hin].
+  - destruct (Hbad Hnil) as [c ->]. eauto.
+  - destruct Hany as [[c ->]|[t' ->]]; [eauto|].
+    destruct (IH s2 (ex_intro _ t0 (conj Hin Hnil)) eq_refl) as [c Hc]. unfold dbind at 1. rewrite Hc. eauto.
+Qed.
+
+(* the recorded finding, at experiment level: whenever some generation has no champion, whatever the rest
+   of the experiment looks like, what Experiment.Encode writes is rejected by Experiment.Decode *)
+Theorem experiment_nil_champion_fails : forall e s,
+  (exists t, In t (ex_trials e) /\ exists g, In g (tr_gens t) /\ gn_champion g = None) ->
+  enc_experiment reg e = Ok s -> exists c, dec_experiment reg s = GoErr c.
+Proof.
+  intros e s Hnil Hs. unfold enc_experiment in Hs.
+  destruct (concat_res (map (enc_trial reg) (ex_trials e))) as [ts| | | | |] eqn:E; try discriminate.
+  cbn [bind] in Hs. injection Hs as <-.
+  unfold dec_experiment, dbind at 1 2 3, d_int, d_str.
+  unfold dec_count, zlen. destruct (Z.ltb (Z.of_nat (length (ex_trials e))) 0) eqn:El; [apply Z.ltb_lt in El; lia|].
+  rewrite Nat2Z.id. unfold dbind. destruct (dec_trials_nil (ex_trials e) ts Hnil E) as [c ->]. eauto.
 Qed.
 End Gob.
